@@ -113,7 +113,7 @@ func (s vfC11Scenario) String() string {
 }
 
 var vfC11DocKinds = []string{"create", "update", "delete", "attach-new", "attach-drop", "push", "import"}
-var vfC11PrincKinds = []string{"user-create", "user-update", "user-delete", "role-create", "role-update", "role-delete", "session-create", "session-delete"}
+var vfC11PrincKinds = []string{"user-create", "user-update", "user-delete", "role-create", "role-update", "role-delete", "session-create", "session-delete", "user-email", "user-register"}
 
 var vfC11AttPool = []string{"hello attachment", "\x00\x01binary\xff\xfe", "a somewhat longer attachment body 0123456789", "x"}
 
@@ -377,7 +377,7 @@ func vfC11Build(t testing.TB, sc vfC11Scenario) (wd *vfC11World, err error) {
 // are stored before the pre-state snapshot, loads the acting user, and waits for the caching feed.
 func (wd *vfC11World) settle() error {
 	a := wd.env.DBC.Authenticator(wd.env.Ctx)
-	for _, n := range []string{"alice", "bob", "carol"} {
+	for _, n := range []string{"alice", "bob", "carol", "dora"} {
 		if _, err := a.GetUser(n); err != nil {
 			return fmt.Errorf("settle user %s: %w", n, err)
 		}
@@ -564,6 +564,37 @@ func vfC11MakeOp(sc vfC11Scenario) vfC11Op {
 					email = "alice@example.com"
 				}
 				return wd.checkPrincipal(name, isUser, true, sc.PUpd.Chans, sc.PUpd.Roles, pw, sc.PUpd.Disabled, email)
+			}}
+	case "user-email":
+		// Authenticator.UpdateUserEmail (used by the OIDC / JWT login path)
+		return vfC11Op{
+			run: func(wd *vfC11World) (any, error) {
+				a := wd.env.DBC.Authenticator(wd.mctx)
+				u, err := a.GetUser("alice")
+				if err != nil {
+					return nil, err
+				}
+				if u == nil {
+					return nil, base.ErrNotFound
+				}
+				return nil, a.UpdateUserEmail(u, "changed@example.com")
+			},
+			check: func(wd *vfC11World, res any, grants bool) string {
+				return wd.checkPrincipal("alice", true, true, []string{"A"}, nil, base.Ptr("pw-alice"), -1, "changed@example.com")
+			}}
+	case "user-register":
+		// Authenticator.RegisterNewUser (auto-registration of a verified identity)
+		email := sc.PUpd.Email
+		return vfC11Op{
+			run: func(wd *vfC11World) (any, error) {
+				u, err := wd.env.DBC.Authenticator(wd.mctx).RegisterNewUser("dora", email)
+				if err == nil && u == nil {
+					err = fmt.Errorf("RegisterNewUser returned no user and no error")
+				}
+				return nil, err
+			},
+			check: func(wd *vfC11World, res any, grants bool) string {
+				return wd.checkPrincipal("dora", true, true, nil, nil, nil, -1, email)
 			}}
 	case "user-delete":
 		return vfC11Op{
@@ -1099,7 +1130,7 @@ func vfC11Execute(t testing.TB, sc vfC11Scenario, op vfC11Op, faults map[int]vs.
 			relaxGrant = vfC11SigInval
 		}
 		if strings.HasPrefix(sc.Kind, "user-") || strings.HasPrefix(sc.Kind, "role-") {
-			if o.Type == vs.OpWriteCas && vfC11IsPrincKey(o.Key) && o.Action == vs.FailBefore && sc.Kind != "role-delete" {
+			if o.Type == vs.OpWriteCas && vfC11IsPrincKey(o.Key) && o.Action == vs.FailBefore && (sc.Kind == "user-create" || sc.Kind == "user-update" || sc.Kind == "role-create" || sc.Kind == "role-update") {
 				relaxSeq = vfC11SigPrincSeq
 			}
 			if o.Type == vs.OpSet && strings.HasPrefix(o.Key, base.DefaultMetadataKeys.UserEmailKey("")) && !o.Applied {
@@ -1108,7 +1139,7 @@ func vfC11Execute(t testing.TB, sc vfC11Scenario, op vfC11Op, faults map[int]vs.
 			}
 			// the same two-step save under "applied, then timeout": the principal document is written,
 			// the email index document is never attempted
-			hasEmail := (sc.Kind != "user-delete" && sc.PUpd.Email != "") || (sc.Kind != "user-create" && sc.AliceEmail)
+			hasEmail := (sc.Kind != "user-delete" && sc.Kind != "user-email" && sc.PUpd.Email != "") || (sc.Kind != "user-create" && sc.Kind != "user-register" && sc.AliceEmail) || sc.Kind == "user-email"
 			if hasEmail && o.Type == vs.OpWriteCas && vfC11IsPrincKey(o.Key) && o.Action == vs.TimeoutAfter {
 				relaxState = vfC11SigEmail
 			}
@@ -1122,7 +1153,12 @@ func vfC11Execute(t testing.TB, sc vfC11Scenario, op vfC11Op, faults map[int]vs.
 		}
 		if sc.Kind == "role-delete" {
 			relaxSeq = vfC11SigRoleSeq
-			if !sc.Purge && o.Type == vs.OpWriteCas && vfC11IsPrincKey(o.Key) && !o.Applied && o.Action != vs.FailCas {
+		}
+		if (sc.Kind == "role-delete" && !sc.Purge) || sc.Kind == "user-email" {
+			savePart := (o.Type == vs.OpWriteCas && vfC11IsPrincKey(o.Key)) || (o.Type == vs.OpSet && strings.HasPrefix(o.Key, base.DefaultMetadataKeys.UserEmailKey("")))
+			// (for the two-step save of user-email, an applied-then-timed-out first step is swallowed too
+			// and the email index is never attempted)
+			if savePart && (!o.Applied || sc.Kind == "user-email") && o.Action != vs.FailCas {
 				relaxVisible = vfC11SigCasSave
 			}
 		}
@@ -1313,6 +1349,19 @@ func vfC11RunEnumeration(t *testing.T, test string, kinds []string) {
 	defer restore()
 	st := &vfC11Stats{classes: map[string]int{}, residue: map[string]int{}, excluded: map[string]int{}, swallowed: map[string]int{}}
 	depth := kit.Param("depth", 1)
+	if shard, n := kit.Shard(); n > 1 {
+		m := n
+		if len(kinds) < m {
+			m = len(kinds)
+		}
+		var mine []string
+		for j, k := range kinds {
+			if j%m == shard%m {
+				mine = append(mine, k)
+			}
+		}
+		kinds = mine
+	}
 	rapid.Check(t, func(rt *rapid.T) {
 		sc := vfC11GenScenario(rt, kinds)
 		e := &vfC11Enum{t: t, rt: rt, test: test, sc: sc, op: vfC11MakeOp(sc), st: st, rec: rec, render: sc.String()}
